@@ -711,6 +711,74 @@ impl Modelled for EBoth {
 	}
 }
 
+/// variants whose field *types* coincide while their representations differ (plain / compact /
+/// encoded_as / with an extra skipped field): every variant counts for the declared maximum
+#[derive(Encode, Decode, DecodeWithMemTracking, MaxEncodedLen, Debug, PartialEq, Clone)]
+pub enum ETwins {
+	Plain(u32),
+	Packed(#[codec(compact)] u32),
+	PlainN { a: u64 },
+	AsN {
+		#[codec(encoded_as = "Compact<u64>")]
+		a: u64,
+	},
+	Short(#[codec(skip)] u64, u16),
+	Long(u64, u16),
+	#[codec(index = 9)]
+	Big(#[codec(compact)] u128),
+	#[codec(index = 8)]
+	BigPlain(u128),
+}
+impl Modelled for ETwins {
+	fn ty() -> Ty {
+		let v = |name: &str, index: u8, fields: Vec<FieldTy>| VariantTy { name: name.into(), index, skipped: false, fields };
+		Ty::Enum {
+			name: "ETwins".into(),
+			variants: vec![
+				v("Plain", 0, vec![FieldTy::plain(Ty::u(4))]),
+				v("Packed", 1, vec![FieldTy::as_(Ty::u(4), Ty::Compact { bits: 32 })]),
+				v("PlainN", 2, vec![FieldTy::plain(Ty::u(8))]),
+				v("AsN", 3, vec![FieldTy::as_(Ty::u(8), Ty::Compact { bits: 64 })]),
+				v("Short", 4, vec![FieldTy::skip(Ty::u(8)), FieldTy::plain(Ty::u(2))]),
+				v("Long", 5, vec![FieldTy::plain(Ty::u(8)), FieldTy::plain(Ty::u(2))]),
+				v("Big", 9, vec![FieldTy::as_(Ty::u(16), Ty::Compact { bits: 128 })]),
+				v("BigPlain", 8, vec![FieldTy::plain(Ty::u(16))]),
+			],
+		}
+	}
+	fn to_val(&self) -> Val {
+		match self {
+			ETwins::Plain(a) => Val::Variant(0, vec![a.to_val()]),
+			ETwins::Packed(a) => Val::Variant(1, vec![a.to_val()]),
+			ETwins::PlainN { a } => Val::Variant(2, vec![a.to_val()]),
+			ETwins::AsN { a } => Val::Variant(3, vec![a.to_val()]),
+			ETwins::Short(a, b) => Val::Variant(4, vec![a.to_val(), b.to_val()]),
+			ETwins::Long(a, b) => Val::Variant(5, vec![a.to_val(), b.to_val()]),
+			ETwins::Big(a) => Val::Variant(6, vec![a.to_val()]),
+			ETwins::BigPlain(a) => Val::Variant(7, vec![a.to_val()]),
+		}
+	}
+	fn from_val(v: &Val) -> Self {
+		match v {
+			Val::Variant(0, f) => ETwins::Plain(u32::from_val(&f[0])),
+			Val::Variant(1, f) => ETwins::Packed(u32::from_val(&f[0])),
+			Val::Variant(2, f) => ETwins::PlainN { a: u64::from_val(&f[0]) },
+			Val::Variant(3, f) => ETwins::AsN { a: u64::from_val(&f[0]) },
+			Val::Variant(4, _) => ETwins::Short(0, u16::from_val(&fields_of(v)[1])),
+			Val::Variant(5, f) => ETwins::Long(u64::from_val(&f[0]), u16::from_val(&f[1])),
+			Val::Variant(6, f) => ETwins::Big(u128::from_val(&f[0])),
+			Val::Variant(7, f) => ETwins::BigPlain(u128::from_val(&f[0])),
+			_ => panic!("ETwins: {:?}", v),
+		}
+	}
+}
+fn fields_of(v: &Val) -> &Vec<Val> {
+	match v {
+		Val::Variant(_, f) => f,
+		_ => panic!("fields_of: {:?}", v),
+	}
+}
+
 /// user-defined wrapper relying on the DEFAULT `WrapperTypeDecode::decode_wrapped`
 /// (descend, decode the wrapped type, convert, ascend) and on `WrapperTypeEncode`
 #[derive(Debug, PartialEq)]
